@@ -183,7 +183,7 @@ func c07evlObjects(c *Ctx) []c07evlObj {
 	localEv := mk(eventlog.RIMLocationLocal, []byte("PciRoot(0)/Pci(1,0)"), "Google, Inc.")
 	otherEv := mk(7, []byte{1, 2, 3}, "Else")
 	badVarEv := mk(eventlog.RIMLocationVariable, append(u[:], 'V', 0, 0xd8, 0xd8, 0, 0), "Google, Inc.") // lone surrogate in the name
-	padded := append(append([]byte{}, varEv...), make([]byte, 7)...)                                   // HOB padding
+	padded := append(append([]byte{}, varEv...), make([]byte, 7)...)                                     // HOB padding
 	specID := append([]byte("Spec ID Event03\x00"), 0, 0, 0, 0, 0, 2, 0, 2, 3, 0, 0, 0, 4, 0, 20, 0, 11, 0, 32, 0, 12, 0, 48, 0, 0)
 	all := []uint16{4, 11, 12}
 	noAct := func(d []byte) c07evlEvent { return c07evlEvent{0, eventlog.EvNoAction, all, d} }
@@ -302,6 +302,20 @@ func c07evlGenerate(c *Ctx) []c07evlCase {
 			hdr[4] = 3
 			add("log", "boundary/log-header", hdr, nil, false, kinds3[:2])
 			add("pcrevent", "boundary/pcrevent", hdr, nil, false, kinds3[:1])
+		}
+	}
+	// over-declared sizes with enough bytes delivered to pass one or more buffer-growth steps: a reader that
+	// trusts the declared size once the first chunk (or the first k chunks) arrived allocates far beyond
+	// the input here, while "huge prefix then EOF" probes stay cheap
+	for _, size := range []uint32{1 << 20, 1 << 24, 1 << 27, 1 << 30, 0x7fffffff, 0xfffffffe} {
+		for _, have := range []int{4095, 4096, 4097, 5000, 8192, 8193, 16385, 40000} {
+			body := c.Rng.Bytes(have)
+			d := append(le.AppendUint32(nil, size), body...)
+			add("eventdata", "overdeclared/eventdata", d, nil, false, kinds3[:2])
+			add("u32arr", "overdeclared/u32arr", d, nil, false, kinds3[:1])
+			hdr := append(make([]byte, 28), d...)
+			hdr[4] = 3
+			add("log", "overdeclared/log-header", hdr, nil, false, kinds3[:2])
 		}
 	}
 	for size := 0; size < 8; size++ {
